@@ -187,9 +187,18 @@ func templateResolver(bi *BasmInstance) error {
 		}
 	}
 
-	// Remove all the templated sections
+	// Remove all the templated sections, unless a processor without parameters still runs one as it is
 	for sectionName := range sectionRem {
-		delete(bi.sections, sectionName)
+		inUse := false
+		for _, cp := range bi.cps {
+			if cp.GetMeta("romcode") == sectionName {
+				inUse = true
+				break
+			}
+		}
+		if !inUse {
+			delete(bi.sections, sectionName)
+		}
 	}
 
 	// Remove all the templated fragments
